@@ -122,6 +122,11 @@ def stage_r(chk, tier, bindir):
     target = max((sh for sh in routes if len(routes[sh]) >= 2), key=lambda sh: (sh != 0, len(routes[sh])))
     names = dict(zip(CTXS, routes[target][:2]))
     plans.append({"name": "c01-cap2k2-shard%dof3" % target, "cap": 2, "k": 2, "gen_len": 8, "n_sim": 300, "n_rep": 20 if q else 120,
+                  # crash hooks are named per pipeline step, not per shard: a manual FLUSH reaches all three shards, so a crash armed
+                  # at a flush step could fire in an idle shard's (empty) flush while the target shard is already further on (seen once
+                  # under load: crash "start" with the target's segment already written).  Crash stages inside a MANUAL flush are
+                  # therefore explored on the 1-shard plans only; STORE-triggered rotations and compaction rounds run on one shard.
+                  "filter": lambda b: not any(c["cmd"] == "flush" and c.get("crash", "none") != "none" for c in b),
                   "run": {"shards": 3, "shard": target, "ctx_names": names}})
     stats = storage.campaign(chk, "C01", plans, TYPES, CTXS, bindir, judge, rnd)
     chk.cov["evaluations"] = stats["points"]
